@@ -389,6 +389,26 @@ def shard_main(argv):
         json.dump(rec.dump(), fil)
 
 
+def fast_tmp():
+    '''Directory for scratch files that are rewritten very often (RAM-backed
+    when the sandbox has one).'''
+    for cand in ('/dev/shm',):
+        if os.path.isdir(cand) and os.access(cand, os.W_OK):
+            return cand
+    return None
+
+
+def limit_memory(gigabytes):
+    '''Address-space limit of the calling shard: a corrupted pickle asking
+    for an absurd allocation gets MemoryError instead of the OOM killer.'''
+    try:
+        import resource
+        lim = int(gigabytes * 2 ** 30)
+        resource.setrlimit(resource.RLIMIT_AS, (lim, lim))
+    except (ImportError, ValueError, OSError):
+        pass
+
+
 def split(total, parts):
     '''Split `total` cases into `parts` (start, stop) ranges.'''
     parts = max(1, min(parts, total))
